@@ -137,3 +137,55 @@ def check_time_dtype(db, chk, rule: str) -> None:
     chk.ob(rule, "the shifted time columns are not down-cast (pd.to_numeric(downcast=...)) or narrowed", not casts and not narrow, where,
            found={"downcasts": [T.show(e["term"])[:100] for e in casts], "narrow casts": narrow}, accepted="ts = ts - min_ts in the column's own 64-bit dtype",
            why="after a data-dependent downcast (int16 when every start fits) ts + dur is evaluated in the narrow dtype: an event ending past 32767 us gets a negative end, a backward span edge and a negative weight")
+
+
+def check_parser_time_dtype(db, chk, rule: str) -> None:
+    """the parser's blanket integer down-cast must leave the start-time column at full width: end = ts + dur (and every later ts + dur)
+    is evaluated in the wider of the two dtypes, so a trace whose timestamps all fit int16 would otherwise get ends that wrap."""
+    from ..core import asthelp as H
+    tp = db.mod("hta.common.trace_parser")
+    f = tp.func("_compress_df")
+    where = tp.loc(f)
+    casts = [c for c in ast.walk(f) if isinstance(c, ast.Call) and ast.unparse(c.func).endswith("to_numeric") and any(k.arg == "downcast" for k in c.keywords)]
+    if not casts:
+        chk.ob(rule, "_compress_df: no blanket down-cast of integer columns", True, where, found="no to_numeric(downcast=...)", accepted="none, or one that excludes ts")
+        return
+    for c in casts:
+        # enclosing loop over the columns and the guards between the loop and the cast
+        cur, guards, loop = tp.parent.get(id(c)), [], None
+        while cur is not None and cur is not f:
+            if isinstance(cur, ast.If):
+                guards.append(cur.test)
+            if isinstance(cur, ast.For) and loop is None:
+                loop = cur
+            cur = tp.parent.get(id(cur))
+        if loop is None or not isinstance(loop.target, ast.Name):
+            arg = ast.unparse(c.args[0]) if c.args else ""
+            chk.ob(rule, "_compress_df: a down-cast outside a column loop does not touch ts", "'ts'" not in arg and '"ts"' not in arg, where, found=ast.unparse(c)[:100], accepted="not the ts column")
+            continue
+        v = loop.target.id
+        over_all = "columns" in ast.unparse(loop.iter)
+        listed = [H.str_const(e) for e in loop.iter.elts] if isinstance(loop.iter, (ast.List, ast.Tuple)) else None
+        excl = False
+        for g in guards:
+            for t_ in (g.values if isinstance(g, ast.BoolOp) and isinstance(g.op, ast.And) else [g]):
+                if isinstance(t_, ast.Compare) and len(t_.ops) == 1 and H.name_id(t_.left) == v:
+                    cmp_, rhs = t_.ops[0], t_.comparators[0]
+                    if isinstance(cmp_, ast.NotEq) and H.str_const(rhs) == "ts":
+                        excl = True
+                    if isinstance(cmp_, ast.NotIn) and isinstance(rhs, (ast.Tuple, ast.List, ast.Set)) and "ts" in [H.str_const(e) for e in rhs.elts]:
+                        excl = True
+                    if isinstance(cmp_, ast.NotIn) and isinstance(rhs, ast.Name):
+                        cv = tp.constants.get(rhs.id) or next((val for t2, val, s2 in H.assignments(f) if H.name_id(t2) == rhs.id), None)
+                        if isinstance(cv, (ast.Tuple, ast.List, ast.Set)) and "ts" in [H.str_const(e) for e in cv.elts]:
+                            excl = True
+        if listed is not None:
+            verdict = "ts" not in listed
+        elif over_all:
+            verdict = True if excl else False
+        else:
+            verdict = None
+        chk.ob(rule, "_compress_df: the integer down-cast leaves the ts column at its full width", verdict, tp.loc(c),
+               found={"loop": ast.unparse(loop.iter)[:60], "guards": [ast.unparse(g)[:80] for g in guards]}, accepted="for col in df.columns: if <int column> and col != 'ts': downcast",
+               why="with zero-based or small timestamps ts becomes int16/int8 like dur, and end = ts + dur wraps (e.g. ts 30000 + dur 5000 -> -30536)",
+               key="hta.common.trace_parser:_compress_df|downcast-ts")
